@@ -79,13 +79,13 @@ class Proc:
     def kill(s): killpg(s.p)
 
 
-def cbmc(gb, func, backends=('minisat',), unwind=None, timeout=60, extra=(), mem_gb=12, unwindset=None, object_bits=None):
+def cbmc(gb, func, backends=('minisat',), unwind=None, timeout=60, extra=(), mem_gb=12, unwindset=None, object_bits=None, partial_loops=False):
     """Race the given back ends on one harness function of goto binary `gb`.
     returns dict(verdict holds|violated|unknown|error, backend, time, failed, inputs, tail)"""
     env = dict(os.environ); env['PATH'] = os.path.join(VERIF, 'stubs', 'cvc5shim') + ':' + env['PATH']
     procs = {}
     for b in backends:
-        cmd = ['cbmc', gb, '--function', func, '--trace'] + BASE_CHECKS + BACKENDS[b] + list(extra)
+        cmd = ['cbmc', gb, '--function', func, '--trace'] + [c for c in BASE_CHECKS if not (partial_loops and c == '--unwinding-assertions')] + BACKENDS[b] + list(extra)
         if unwind is not None: cmd += ['--unwind', str(unwind)]
         if unwindset: cmd += ['--unwindset', unwindset]
         if object_bits: cmd += ['--object-bits', str(object_bits)]
